@@ -23,6 +23,10 @@
      input_packet awaits the callback once for a well-formed packet and fails its assertion on trailing / missing
      bytes; run awaits the test function and then shuts the application down.
 
+   The two named deviations widen what the replay accepts (harness/facekit.py, differs()): a face that says
+   running = False while no transport is open after a failed open, and a second error_received that is swallowed,
+   conform as well (that is what the repaired code does).
+
    last = result of the last call: "ok" | "AttributeError" | "InvalidStateError" | "OSError" | "AssertionError" *)
 EXTENDS Naturals, Sequences, TLC
 CONSTANTS Kind,      \* "udp" | "dummy"
